@@ -113,15 +113,35 @@ def _tl(v):
     return str(v)
 
 
-def build(result: dict, cfg: dict):
+def ref_event(e, rootname):
+    ctx = project.split_path(e["ctx"]) if e.get("ctx") else None
+    ctxok = bool(ctx) and ctx[0] == rootname
+    ev = {"ev": "ref", "name": e["name"], "ls": bool(e["last_saved"]), "ctx": ctx[1:] if ctxok else [], "ctxok": ctxok,
+          "err": "error" in e, "parse_ok": False, "e": {"abs": True, "up": 0, "path": [], "cur": False, "inst": ""},
+          "in_ir": False, "in_pred": False}
+    if "out" in e:
+        pe = abstract.parse_ref_output(e["out"], rootname)
+        if pe is not None:
+            ev["parse_ok"] = True
+            ev["e"] = pe
+        ev["in_ir"], ev["in_pred"] = abstract.ref_position_facts(e.get("src") or "", e.get("pos") or 0)
+    return ev
+
+
+def residual_refs(xform: str) -> int:
+    root = project.parse(xform)
+    return sum(1 for _, _, v in project.all_attr_values(root) if "${" in v)
+
+
+def build(result: dict, cfg: dict, with_refs: bool = False):
     """-> (trace, in_fragment). result is conv.convert_case output (with events)."""
-    rows = [e for e in result.get("events", []) if e["ev"] in ("row", "rows_done")]
+    rows = [e for e in result.get("events", []) if e["ev"] in ("row", "rows_done") or (with_refs and e["ev"] == "ref")]
     trace = []
     frag = True
-    nwarn0 = rows[0]["nwarn"] if rows else 0
+    nwarn0 = next((e["nwarn"] for e in rows if "nwarn" in e), 0)
     trace.append({"ev": "init", "cfg": cfg, "nwarn0": nwarn0})
     for e in rows:
-        snap = {
+        snap = {} if e["ev"] == "ref" else {
             "kinds": [k or "" for k in e["kinds"]],
             "names": [str(n) for n in e["names"]],
             "nchildren": e["nchildren"],
@@ -129,6 +149,9 @@ def build(result: dict, cfg: dict):
             "nmeta": e["nmeta"],
             "nwarn": e["nwarn"],
         }
+        if e["ev"] == "ref":
+            trace.append(ref_event(e, cfg["formname"]))
+            continue
         if e["ev"] == "row":
             a = abstract.alpha_row(e["row"])
             frag = frag and a["frag"]
@@ -136,8 +159,11 @@ def build(result: dict, cfg: dict):
         else:
             trace.append({"ev": "rows_done", **snap})
     end = {"ev": "end", "status": result["status"]}
+    end["residual"] = 0
     if result["status"] == "ok":
         end["obs"] = observe(result["xform"])
+        if with_refs:
+            end["residual"] = residual_refs(result["xform"])
     else:
         end["obs"] = {"inst": [], "body": [], "binds": [], "actions": [], "root": ""}
     trace.append(end)
